@@ -159,6 +159,11 @@ def rejections(ctx):
         x_ = look(t)
         if payload_of(x_) is not None and x_[0] != "bin" and body_minus_length(payload_of(x_)) and c[0] == "ne" and 0 in c[1]:
             return "body-length-mismatch"
+        # `content_length.abs_diff(body.len()) != 0` (either order)
+        if t[0] == "bin" and t[1] in ("Ne", "Eq") and const_of(t[3]) == 0 and tv == (t[1] == "Ne") and is_call(look(t[2]), "abs_diff"):
+            a_, b_ = [look(strip_cast(z)) for z in look(t[2])[2]]
+            if (is_call(a_, "len") and is_call(b_, "common::headers::Headers::content_length")) or (is_call(b_, "len") and is_call(a_, "common::headers::Headers::content_length")):
+                return "body-length-mismatch"
         if t[0] == "bin" and t[1] == "Lt" and is_call(look(t[2]), "len") and rl_slice(look(t[2])[2][0]) and is_call(look(t[3]), "request::RequestLine::min_len") and tv:
             return "short-line"
         if result_test(t, c, lambda src: is_call(src, "request::RequestLine::try_from") and rl_slice(src[2][0])) == "err":
